@@ -39,10 +39,23 @@ func propBackendModel(c *Case) {
 			c.SeedJitter()
 		}
 
-		be := newCaseBackend(c, kind, cache.Config{
-			TimeToLive: cfgTTL, ExpirationJitter: jit,
-			DeleteExpiredJobInterval: farFuture, DeleteExpiredAfter: farFuture,
-		})
+		cfg := cache.Config{
+			TimeToLive: cfgTTL, ExpirationJitter: jit, ItemsCountReportInterval: farFuture,
+			// the janitor never runs: an entry is an entry however long ago it expired
+			DeleteExpiredJobInterval: farFuture, DeleteExpiredAfter: []time.Duration{farFuture, 0, time.Second, time.Nanosecond}[c.Pick("DeleteExpiredAfter", 4)],
+		}
+
+		// an observed cache (debug logger / stats tracker) takes the instrumented code paths
+		switch c.Weighted("observed", 3, 1, 1) {
+		case 1:
+			cfg.Logger = sinkLogger{}
+			c.Class("with-debug-logger")
+		case 2:
+			cfg.Logger, cfg.Stats = sinkLogger{}, newCountTracker()
+			c.Class("with-debug-logger-and-stats")
+		}
+
+		be := newCaseBackend(c, kind, cfg)
 		d := newMapDriver(c, be, cfgTTL, jit)
 		backendOps(c, d, baseKeys, c.Int("nops", 5, 60))
 		d.compareAll()
